@@ -83,6 +83,8 @@ type c05StreamOpt struct {
 	dot         bool          // params.SSADotOut
 	multArray   int           // params.CircMultArrayTreshold (0 = default)
 	maxUnroll   int           // params.MaxLoopUnroll (0 = default)
+	source      string        // (virtual) source name of the program; native circuit files resolve from its directory
+	label       string
 }
 
 func (o c05StreamOpt) String() string {
@@ -177,7 +179,11 @@ func c05RunStream(src string, gIn, eIn []string, opt c05StreamOpt, rng *RNG, fra
 			res.gOut, res.gRes, res.gErr = compiler.New(params).StreamFile(gConn, spy, f.Name(), gIn, [][]int{sizes0, sizes1})
 			return
 		}
-		res.gOut, res.gRes, res.gErr = compiler.New(params).Stream(gConn, spy, "{data}",
+		source := "{data}"
+		if opt.source != "" {
+			source = opt.source
+		}
+		res.gOut, res.gRes, res.gErr = compiler.New(params).Stream(gConn, spy, source,
 			strings.NewReader(src), gIn, [][]int{sizes0, sizes1})
 	}()
 	go func() {
@@ -298,7 +304,18 @@ func c05RunWhole(src string, gIn, eIn []string, opt c05StreamOpt) (w c05Whole) {
 		params.MaxLoopUnroll = opt.maxUnroll
 	}
 	defer params.Close()
-	circ, _, err := compiler.New(params).Compile(src, [][]int{sizes0, sizes1})
+	var circ *circuit.Circuit
+	if opt.source != "" {
+		// Compile() has no source-name form: the same two steps it performs
+		prog, _, err2 := compiler.New(params).CompileSSA(opt.source, strings.NewReader(src), [][]int{sizes0, sizes1})
+		if err2 != nil {
+			w.err = err2
+			return
+		}
+		circ, err = prog.CompileCircuit(params)
+	} else {
+		circ, _, err = compiler.New(params).Compile(src, [][]int{sizes0, sizes1})
+	}
 	if err != nil {
 		w.err = err
 		return
@@ -678,6 +695,9 @@ func c05Program(c *Ctx, idx int, name string, p c05Prog, frag int) error {
 		if exErr == nil {
 			bad = c05Classify(ex.premature)
 		}
+		if bad == "" && name == "native" {
+			bad = "c05:stream:native-circuit:" + p.opt.label + ":wrong-output"
+		}
 		if bad == "" && name == "entry" && p.opt.eVals != nil {
 			bad = "c05:stream:input-values-entry:wrong-output"
 		}
@@ -698,7 +718,7 @@ func c05Program(c *Ctx, idx int, name string, p c05Prog, frag int) error {
 		}
 	}
 	if bad == "" && p.want != nil && bigsString(w.res) != bigsString(p.want) {
-		bad, what = "c05:sign-resize:whole-circuit-differs-from-reference",
+		bad, what = "c05:"+name+":whole-circuit-differs-from-reference",
 			fmt.Sprintf("whole-circuit result %s differs from the reference result %s", bigsString(w.res), bigsString(p.want))
 	}
 	if bad == "" {
@@ -786,7 +806,7 @@ func c05Program(c *Ctx, idx int, name string, p c05Prog, frag int) error {
 		npr = 2 // not evaluated by the model (quadratic in the number of ids)
 	}
 	obs := L(I(0), ex.listing, L(ps.circs...), Ints(ps.retIDs), bigsSX(s.gRes), Big(new(big.Int).SetBytes(hdr)), L(recvOuts...),
-		L(I(1), Bool(ex.constsTabled), I(npr), I(1)))
+		L(Bool(!ex.hasNative), Bool(ex.constsTabled), I(npr), I(1)))
 	if ex.cacheHits > 0 {
 		c.Hist("circuit-cache-hit")
 	}
@@ -802,8 +822,13 @@ func c05Program(c *Ctx, idx int, name string, p c05Prog, frag int) error {
 		}
 	}
 	line := len(in.String()) + len(obs.String())
-	if name == "big-circuit" {
+	if name == "big-circuit" || name == "native" {
 		c.Note("case %d (%s): %d gates, max permanent id %d, max tmp index %d, line %d bytes", idx, name, ps.gates, ps.max, ps.maxTmp, line)
+	}
+	if !c.Thorough() && ex.gates > 6000 {
+		// oracle only in the quick tier: large native circuits (mul64, div64)
+		c.Hist("case-too-large-for-quick-correspondence")
+		return nil
 	}
 	if !c.Thorough() && ex.nSteps > 3000 {
 		// oracle only in the quick tier: the model needs ~15 s for such a list
@@ -833,7 +858,11 @@ type c05Inputs struct {
 func c05ParseIn(src string, g, e []string, opt c05StreamOpt, sizes [][]int) *c05Inputs {
 	params := utils.NewParams()
 	defer params.Close()
-	prog, _, err := compiler.New(params).CompileSSA("{data}", strings.NewReader(src), sizes)
+	source := "{data}"
+	if opt.source != "" {
+		source = opt.source
+	}
+	prog, _, err := compiler.New(params).CompileSSA(source, strings.NewReader(src), sizes)
 	if err != nil || len(prog.Inputs) != 2 {
 		return nil
 	}
@@ -887,6 +916,13 @@ func runC05(c *Ctx) error {
 	// permanent wire ids all stay below 65536
 	for i := 0; i < c.N(1, 3); i++ {
 		if err := c05Program(c, idx, "big-circuit", c05BigProg(c.rng.Fork(), i), 0); err != nil {
+			return err
+		}
+		idx++
+	}
+	// native circuit files (case Circ of the streamer)
+	for _, p := range c05NativePrograms(c) {
+		if err := c05Program(c, idx, "native", p, 0); err != nil {
 			return err
 		}
 		idx++
